@@ -12,8 +12,10 @@ def run(ctx):
     ctx.run(S.erv2_request_shell)
     ctx.run(LM.flw1_limit_arithmetic)
     ctx.run(SH.flw8_shape)
+    ctx.run(SH.flw8_star_expansion_only_for_select_star)
     ctx.run(L.lck10_no_reentrant_acquisition, scope_prefixes=['engine::execution::query_task::', 'scheduler::shared_sender::', 'locustdb::'])
     ctx.run(M.ord13_top_n_limit_zero)
+    ctx.run(S.pan4_constant_result_columns)
     return ctx.finish(
         'Static analysis of compiler MIR + syntax tree: the text -> AST -> Query -> task shell has '
         'no explicit panic source (unwrap/expect/panic!/assert/index) except tabled, reasoned '
